@@ -141,11 +141,11 @@ Qed.
 (* GRANT ALL / REVOKE ALL: the code takes the operation set of the first matching type; when all
    types the filter matches (among those the workspace sees) have the same applicable operations
    this is "every operation applicable to the resource" - the oracle's reading *)
-Lemma eff_rule_uniform S d t : dall d = true -> In t (vis_types S (dws d)) -> fmatch (rflt (drl d)) t = true ->
+Lemma eff_rule_uniform S d t : dall d = true -> dsrc d = false -> In t (vis_types S (dws d)) -> fmatch (rflt (drl d)) t = true ->
   (forall t', In t' (vis_types S (dws d)) -> fmatch (rflt (drl d)) t' = true -> taclops t' = taclops t) ->
   rops (eff_rule S d) = taclops t.
 Proof.
-  intros Ha Hin Hm Hu. unfold eff_rule, eff_rule_gen. rewrite Ha. cbn [rops].
+  intros Ha Hs Hin Hm Hu. unfold eff_rule, eff_rule_gen. rewrite Ha, Hs. cbn [rops].
   destruct (find (fmatch (rflt (drl d))) (vis_types S (dws d))) as [t0|] eqn:F.
   - apply find_some in F. destruct F as [F1 F2]. apply Hu; assumption.
   - exfalso. pose proof (find_none _ _ F t Hin) as X. cbn in X. congruence.
@@ -180,17 +180,17 @@ Lemma lN_eqb_eq (a b : list N) : list_eqb N.eqb a b = true -> a = b.
 Proof. apply list_eqb_eq. intros x y. apply N.eqb_eq. Qed.
 
 (* an accepted ALL rule gives every resource it matches exactly the operations applicable to it *)
-Lemma accepted_all_ops S d t : accepted_gen true S d = true -> dall d = true ->
+Lemma accepted_all_ops S d t : accepted_gen true S d = true -> dall d = true -> dsrc d = false ->
   In t (vis_types S (dws d)) -> fmatch (rflt (drl d)) t = true -> rops (eff_rule S d) = taclops t.
 Proof.
-  intros A Ha Hin Hm. unfold accepted_gen in A. rewrite Ha in A. cbn in A.
-  unfold eff_rule, eff_rule_gen. rewrite Ha. cbn [rops]. rewrite find_filter. unfold uniform in A.
+  intros A Ha Hs Hin Hm. unfold accepted_gen in A. rewrite Ha, Hs in A. cbn in A.
+  unfold eff_rule, eff_rule_gen. rewrite Ha, Hs. cbn [rops]. rewrite find_filter. unfold uniform in A.
   assert (Hf : In t (filter (fmatch (rflt (drl d))) (vis_types S (dws d)))) by (apply filter_In; split; assumption).
   destruct (filter (fmatch (rflt (drl d))) (vis_types S (dws d))) as [|t0 ts]; [destruct Hf|].
   destruct Hf as [->|Hf]; [reflexivity|]. rewrite forallb_forall in A. symmetry. apply lN_eqb_eq. apply A. exact Hf.
 Qed.
 
-Lemma accepted_all_ops_cur (U : acl_all_requires_uniform_ops = true) : forall S d t, accepted S d = true -> dall d = true ->
+Lemma accepted_all_ops_cur (U : acl_all_requires_uniform_ops = true) : forall S d t, accepted S d = true -> dall d = true -> dsrc d = false ->
   In t (vis_types S (dws d)) -> fmatch (rflt (drl d)) t = true -> rops (eff_rule S d) = taclops t.
 Proof. unfold accepted. rewrite U. exact accepted_all_ops. Qed.
 
@@ -200,3 +200,10 @@ Proof. intros [->|E]; unfold eff_fields; [reflexivity|]. rewrite E. cbn. rewrite
 
 Lemma eff_rule_fields_cur (C : acl_rule_clones_fields = true) : forall S d, rfields (eff_rule S d) = rfields (drl d).
 Proof. intros S d. unfold eff_rule, eff_rule_gen. cbn [rfields]. apply eff_fields_declared. left. exact C. Qed.
+
+(* ---------- VSQL: ALL ON TABLE ---------- *)
+(* when the compiler's list for ALL is (as a set) the operations applicable to the table asked about, a
+   compiled ALL rule without columns carries exactly those *)
+Lemma vsql_all_ops S d t : dall d = true -> dsrc d = true -> rfields (drl d) = [] ->
+  lset_eqb parser_all_table_ops (taclops t) = true -> lset_eqb (rops (eff_rule S d)) (taclops t) = true.
+Proof. intros Ha Hs Hf H. unfold eff_rule, eff_rule_gen. rewrite Ha, Hs, Hf. exact H. Qed.
